@@ -99,13 +99,20 @@ let rec dump (v : value) : string = match v with
 
 let oz o = match o with Some z -> dec_of_z z | None -> "ub"
 
+(* mode `spec` = the property oracle: a conversion / comparison the property text leaves open (VariantSpec.str_fits,
+   veq_pinned: a decimal string the target type cannot hold; maps with the same keys in another insertion order) is
+   printed as `?`; checks/C07.py treats it as a wildcard.  Mode `model` prints the code's choice there. *)
+let pz (pinned : bool) o = if pinned then oz o else "?"
+
 let coercions (v : value) : string =
   let (m, e) = to_dbl v in
-  String.concat "," [ (if is_null v then "1" else "0"); (if to_bool v then "1" else "0"); oz (to_int v); oz (to_uint v); oz (to_i64 v); oz (to_u64 v);
+  String.concat "," [ (if is_null v then "1" else "0"); (if to_bool v then "1" else "0");
+                      pz (int_pinned v) (to_int v); pz (uint_pinned v) (to_uint v); pz (i64_pinned v) (to_i64 v); pz (u64_pinned v) (to_u64 v);
                       "d" ^ dec_of_z m ^ "_" ^ dec_of_z e; hex_of_bytes (to_str v) ]
 
 let eq_matrix (vs : value list) : string =
   String.concat "" (List.concat_map (fun a -> List.map (fun b ->
+      if not (veq_pinned a b) then "?" else
       match veq a b with Some true -> "t" | Some false -> "f" | None -> "u") vs) vs)
 
 (* the same observations computed by the Model's OWN observers on the representation (VariantModel: m_type, m_to_*, meq -
